@@ -184,6 +184,11 @@ def anchor_ties(pid):
     return trs, mods
 
 
+def _is_known(pid, v):
+    kn = [k for k in common.load_known().get('known', []) if k['property'] == pid]
+    return any(v.get('key') and k['key'] == v['key'] for k in kn)
+
+
 def main():
     ap = argparse.ArgumentParser()
     ap.add_argument('pid')
@@ -249,8 +254,8 @@ def main():
             mod.replay(res, drv, rp)
         else:
             mod.run(res, drv, tier, seed)
-        # failing-input search when an obligation broke and nothing concrete was found yet
-        if broken and not any(v['kind'] == 'failing-input' for v in res.violations):
+        # failing-input search when an obligation broke and nothing concrete (other than the listed known findings) was found yet
+        if broken and not any(v['kind'] == 'failing-input' and not _is_known(pid, v) for v in res.violations):
             if hasattr(mod, 'search'):
                 mod.search(res, tier, seed, broken)
     except subprocess.TimeoutExpired as e:
@@ -286,7 +291,8 @@ def main():
         print(f"VIOLATION property={pid} replay={path}{tail}")
         print(f"  {v['kind']}: {v['what']}")
         exit_code = 1
-    if broken and not found_failing:
+    if broken and not new_failing:
+        # (a failing input that is a LISTED known finding does not explain a broken obligation: the obligation is reported)
         for b in broken:
             v = {'kind': 'obligation', 'what': f"{b['stage']}: {b['detail'][:400]}",
                  'replay': {'theorem': b['theorem'], 'stage': b['stage'], 'detail': b['detail'], 'request': None}}
